@@ -22,6 +22,7 @@ hash=$( {
       \( -name '*.go' ! -name '*_test.go' -o -name 'go.mod' -o -name 'go.sum' -o -name '*.lua' \) -print0 \
       | sort -z | xargs -0 sha256sum
   cd "$VERIF" && find simrt harness engine/xform -type f -print0 | sort -z | xargs -0 sha256sum
+  echo "xform-select=${VERIF_XFORM_SELECT:-1}"
 } | sha256sum | cut -c1-20 )
 OUT="$VERIF/.build/$hash"
 if [ -f "$OUT/ok" ]; then
